@@ -132,6 +132,21 @@ def same(a, b, P):
     return a == b
 
 
+def unchanged(got, passed):
+    """'left untouched': the same object, or an equal value of exactly the same types (a copy is not a change)"""
+    if got is passed:
+        return True
+    if type(got) is not type(passed):
+        return False
+    if isinstance(got, list):
+        return len(got) == len(passed) and all(unchanged(a, b) for a, b in zip(got, passed))
+    if isinstance(got, dict):
+        return got.keys() == passed.keys() and all(unchanged(got[k], passed[k]) for k in got)
+    if isinstance(got, float) and got != got:
+        return passed != passed
+    return got == passed
+
+
 def run_case(case):
     from .. import analysis, oracle
     opts = case["opts"]
@@ -213,7 +228,7 @@ def run_case(case):
                                                          f"expected parse of the original")
                     else:
                         cnt["untouched_fields"] += 1
-                        if got is not passed and not (fw == "attrs" and not conv_on and pp):
+                        if not unchanged(got, passed) and not (fw == "attrs" and not conv_on and pp):
                             W("unconverted-field-changed", f"{cls.__name__}.{f.name} ({oracle.tstr(f.ann)}): passed {oracle.short(passed, 100)}, instance holds {oracle.short(got, 100)}")
         return {"status": "violated" if wit else "held", "witnesses": wit, "counters": cnt, "nontrivial": cnt["deep_paths"] >= 1, "digest": digest(case)}
     finally:
